@@ -49,6 +49,8 @@ THIS_FILE = __file__
 FNS = sigs.WIDE + [kinds.PosInit, kinds.target3, kinds.node, kinds.tagged_fn, kinds.tagged_pos_fn,
                    kinds.DC, kinds.two]
 SWAP = {kinds.node: kinds.node2, kinds.two: kinds.three}
+SWAP_DROP = {kinds.two: kinds.three, kinds.three: kinds.two, kinds.target3: kinds.two,
+             kinds.node: kinds.two}
 _seen_ids = set()
 _last_id = [-1]
 
@@ -76,7 +78,7 @@ def valid_storage_key(m: M.ArgModel, k):
   return k not in m.forbidden and (k in m.named_ok or m.has_vk)
 
 
-def judge(cfg, m, before, outcome, suspended, direct, acc, witness, untracked):
+def judge(cfg, m, before, outcome, suspended, direct, acc, witness, untracked, m_old=None):
   """Compares the history delta of one op with the state delta. Returns False on violation."""
   hist_b, args_b, tags_b = before
   hist_a, args_a, tags_a = snap(cfg)
@@ -117,7 +119,7 @@ def judge(cfg, m, before, outcome, suspended, direct, acc, witness, untracked):
       continue
     vals = [e for e in new_entries.get(k, []) if e.kind == history.ChangeKind.NEW_VALUE]
     changed = (k in args_b) != (k in args_a) or (k in args_a and args_a[k] is not args_b[k])
-    if vals and not valid_storage_key(m, k) and (k in args_a or k in args_b or True):
+    if vals and not valid_storage_key(m, k) and not (m_old is not None and valid_storage_key(m_old, k)):
       acc.violation('entry-under-wrong-key:value', f'value entry recorded under key {k!r}', witness())
       return False
     cur = args_a[k] if k in args_a else history.DELETED
@@ -191,7 +193,7 @@ def gen_op(rng, m, cnt, names):
   L = m.length()
   kind = rng.choice(['setattr', 'setattr', 'delattr', 'setidx', 'delidx', 'setslice', 'delslice',
                      'add_tag', 'remove_tag', 'set_tags', 'clear_tags', 'assign', 'materialize',
-                     'update_callable', 'copy_with', 'reassign-same'])
+                     'update_callable', 'update_callable_drop', 'copy_with', 'reassign-same'])
   if kind in ('setattr', 'delattr'):
     nm = rng.choice(names)
     return (kind, nm, Sentinel(next(cnt)))
@@ -245,6 +247,11 @@ def apply_op(cfg, op):
     if new is None:
       raise LookupError('no swap')
     fdl.update_callable(cfg, new)
+  elif k == 'update_callable_drop':
+    new = SWAP_DROP.get(cfg.__fn_or_cls__)
+    if new is None:
+      raise LookupError('no swap')
+    fdl.update_callable(cfg, new, drop_invalid_args=True)
   elif k == 'copy_with':
     return fdl.copy_with(cfg, **op[1])
   elif k == 'reassign-same':
@@ -331,14 +338,14 @@ def run_history(rng, acc):
         return
       cfg = new_cfg
       continue
-    if op[0] == 'update_callable' and outcome == 'ok':
-      m2 = M.ArgModel(cfg.__fn_or_cls__)
-      m2.pos, m2.va, m2.kw = dict(m.pos), list(m.va), dict(m.kw)
-      m = m2
+    m_old = None
+    if op[0] in ('update_callable', 'update_callable_drop') and outcome == 'ok':
+      m_old = m
+      m = M.ArgModel(cfg.__fn_or_cls__)
       names = list(m.sig.parameters) + ['zz', 'extra']
     if block and (snap(cfg)[1] != before[1] or snap(cfg)[2] != before[2]):
       untracked = True
-    ok = judge(cfg, m, before, outcome, block, op[0] in DIRECT, acc, witness, untracked)
+    ok = judge(cfg, m, before, outcome, block, op[0] in DIRECT, acc, witness, untracked, m_old=m_old)
     if not ok:
       return
     a_now = snap(cfg)[1]
@@ -366,6 +373,7 @@ def run_threads(spec, acc):
         r = random.Random(seeds[ti])
         cfg = fdl.Config(sigs.g_abc_d_va_vk)
         ids = []
+        lost = [0]
         barrier.wait()
         suspended_added = 0
         for j in range(150):
@@ -378,12 +386,15 @@ def run_threads(spec, acc):
           else:
             k = r.choice(['a', 'b', 'c', 'extra'])
             setattr(cfg, k, j)
+            after = sum(len(v) for v in cfg.__argument_history__.values())
+            if after != before + 1:
+              lost[0] += 1        # a tracked edit of THIS thread must be logged
             if r.random() < 0.3:
               cfg[fdl.VARARGS:] = [j, j + 1]
           ids_now = sorted(e.sequence_id for lst in cfg.__argument_history__.values() for e in lst)
         # program order = order of appends; collect per key in list order and merge by id
         per_key = {k: [e.sequence_id for e in lst] for k, lst in cfg.__argument_history__.items()}
-        results[ti] = (per_key, suspended_added, history.tracking_enabled())
+        results[ti] = (per_key, suspended_added, history.tracking_enabled(), lost[0])
 
       ts = [threading.Thread(target=body, args=(i,)) for i in range(nthreads)]
       for t in ts:
@@ -392,7 +403,10 @@ def run_threads(spec, acc):
         t.join()
       acc.obs('thread_runs')
       all_ids = []
-      for ti, (per_key, susp, enabled) in enumerate(results):
+      for ti, (per_key, susp, enabled, lost_n) in enumerate(results):
+        if lost_n:
+          acc.violation('thread:tracked-edit-not-logged', f'thread {ti}: {lost_n} tracked edit(s) added '
+                        'no history entry (another thread had tracking suspended?)', {'threads': nthreads})
         for k, ids in per_key.items():
           acc.obs('thread_entries', len(ids))
           if any(b <= a for a, b in zip(ids, ids[1:])):
